@@ -295,13 +295,17 @@ let lane_tls args =
   | [scheme; stls; nov; connector; answer; cert; hs; _extra] ->
       let c = { ldaps = (scheme = "ldaps"); starttls1 = (stls = "1"); no_tls_verify = (nov = "1");
                 custom_connector_accepts_invalid = (if connector = "ca" then Some false else None) } in
-      let ans = (match answer with "success" -> AnsSuccess | "garbage" -> AnsGarbage | "close" -> AnsClose | "otherid" -> AnsOtherIdFirst
+      let ans = (match answer with "success" -> AnsSuccess | "garbage" -> AnsGarbage | "close" -> AnsClose | "otherid" -> AnsOtherIdFirst | "slam" -> AnsSlam | "greet" -> AnsGreetFirst
                  | rc -> AnsRc (n_of_decimal (String.sub rc 2 (String.length rc - 2)))) in
       (* oracle inputs: the certificate is trusted for the host name only when it chains to the CA the connector was given *)
-      let sv = { answer = ans; cert_trusted_for_host = (cert = "trusted" && connector = "ca"); handshake_completes = (hs = "1"); bytes_after_response = [] } in
-      let r = establish true c sv in
-      (match r.result1 with
-       | Established Tls -> "ok transport=tls" | Established Clear -> "ok transport=clear" | Failed -> "err" | NeverReturns -> "hang")
+      (* who wins the race between the driver task and the caller is not under the lane's control: the model is asked for both outcomes,
+         which must agree (they do on the repaired turn: Tls.c04_slam_and_greet) *)
+      let show df =
+        let sv = { answer = ans; cert_trusted_for_host = (cert = "trusted" && connector = "ca"); handshake_completes = (hs = "1"); driver_first = df; bytes_after_response = [] } in
+        let r = establish true c sv in
+        (match r.result1 with
+         | Established Tls -> "ok transport=tls" | Established Clear -> "ok transport=clear" | Failed -> "err" | NeverReturns -> "hang") in
+      let a = show true and b = show false in if a = b then a else a ^ "|" ^ b
   | _ -> "BAD-ARGS"
 
 let dispatch lane args =
